@@ -1887,3 +1887,229 @@ pub fn run_client_retry(cfg: &ScenCfg, out: &mut RunOut) {
     kernel::run_until(|| false, kernel::now_ns() + 100 * MS, 100_000);
     let _ = task;
 }
+
+// ---------------------------------------------------------------------------
+// C07 inside an established TLS session: one bit of the ciphertext is flipped on its way to rodbus (server
+// role: in a request record; client role: in a reply record). rustls must reject the record, the library must
+// end that session with an error - no panic, no handler call or result from the damaged record - and stay
+// usable: the server serves a new connection, the client reconnects and completes the next request.
+
+pub fn run_tls_corruption(cfg: &ScenCfg, out: &mut RunOut) {
+    let sched = chance(1, 2);
+    let chunk = chance(1, 2);
+    kernel::with(|w| {
+        w.cfg.sched_random = sched;
+        w.cfg.select_random = sched;
+        w.cfg.chunk_reads = chunk;
+        w.cfg.short_writes = chunk;
+    });
+    let (dec_idx, decode) = pick_decode(&cfg.decode);
+    // inside the protected part of the record: the five header bytes are not all covered by the record
+    // protection (rustls builds the TLS 1.3 additional data from constants and the length), so a flipped
+    // outer type or legacy version is tolerated by the TLS layer and nothing reaches rodbus
+    let offset_in_record = 5 + choose(24) as u64;
+    let mask = 1u8 << choose(8);
+    let peer_v = choose(3);
+    if cfg.variant == 0 {
+        // ---- rodbus as TLS server
+        let tls = TlsServerConfig::new(&fixture("ca1_cert.pem"), &fixture("srv_ok_cert.pem"), &fixture("srv_ok_key.pem"), None, MinTlsVersion::V1_2, CertificateMode::AuthorityBased).expect("server config");
+        let journal: Journal = Arc::new(Mutex::new(Vec::new()));
+        let mem = UnitMem::new(0xC07);
+        let handler = MemHandler { unit: 1, mem: mem.clone(), journal: journal.clone() }.wrap();
+        let map = ServerHandlerMap::single(UnitId::new(1), handler);
+        let addr: SocketAddr = "10.0.0.1:802".parse().unwrap();
+        let listener = TcpListener::bind_now(addr).unwrap();
+        let (handle, task) = create_tls_server_task(4, listener, map, tls, AddressFilter::Any, decode);
+        let task = simtokio::task::spawn_named("tls-server", task.run());
+        kernel::settle();
+        // phase: 0 connecting, 1 first reply received, 2 damaged request sent, 3 done
+        let log: Arc<Mutex<(u32, Vec<u8>, Vec<u8>, bool)>> = Arc::new(Mutex::new((0, Vec::new(), Vec::new(), false)));
+        let (go_tx, mut go_rx) = simtokio::sync::mpsc::unbounded_channel::<()>();
+        {
+            let log = log.clone();
+            let pcfg = peer_client_config(peer_v, "cli_operator_cert.pem", "cli_operator_key.pem");
+            simtokio::task::spawn_named("tls-peer-client", async move {
+                let tcp = match TcpStream::connect(addr).await {
+                    Ok(t) => t,
+                    Err(_) => return,
+                };
+                let connector = tokio_rustls::TlsConnector::from(pcfg);
+                let mut stream = match connector.connect(ServerName::try_from("test.com").unwrap(), tcp).await {
+                    Ok(s) => s,
+                    Err(_) => return,
+                };
+                let mut buf = [0u8; 128];
+                if stream.write_all(&mbap_frame(1, 1, &[3, 0, 1, 0, 1])).await.is_err() {
+                    return;
+                }
+                if let Ok(Ok(n)) = simtokio::time::timeout(Duration::from_secs(2), stream.read(&mut buf)).await {
+                    log.lock().unwrap().1.extend_from_slice(&buf[..n]);
+                }
+                log.lock().unwrap().0 = 1;
+                // wait for the director to arm the fault
+                let _ = go_rx.recv().await;
+                let _ = stream.write_all(&mbap_frame(2, 1, &[3, 0, 2, 0, 1])).await;
+                log.lock().unwrap().0 = 2;
+                match simtokio::time::timeout(Duration::from_secs(2), stream.read(&mut buf)).await {
+                    Ok(Ok(0)) | Ok(Err(_)) => log.lock().unwrap().3 = true,
+                    Ok(Ok(n)) => log.lock().unwrap().2.extend_from_slice(&buf[..n]),
+                    Err(_) => {}
+                }
+                log.lock().unwrap().0 = 3;
+            });
+        }
+        {
+            let log = log.clone();
+            kernel::run_until(move || log.lock().unwrap().0 >= 1, 3_000 * MS, 400_000);
+        }
+        // arm: flip one bit of the next record the client sends
+        kernel::with(|w| {
+            if let Some(c) = w.net.conns.get_mut(0) {
+                let p = &mut c.pipes[0];
+                p.flip = Some((p.total_written + offset_in_record, mask));
+                w.count("fault_bitflip");
+            }
+        });
+        let calls_before = journal.lock().unwrap().len();
+        let _ = go_tx.send(());
+        {
+            let log = log.clone();
+            kernel::run_until(move || log.lock().unwrap().0 >= 3, kernel::now_ns() + 3_000 * MS, 400_000);
+        }
+        let (phase, first, second, closed) = log.lock().unwrap().clone();
+        let v1 = mem.read_reg(3, 1).unwrap();
+        let desc = format!("TLS server, peer versions {}, bit {:#04x} flipped at byte {} of the second request's record", ["1.2", "1.3", "1.2+1.3"][peer_v as usize], mask, offset_in_record);
+        if first != mbap_frame(1, 1, &[3, 2, (v1 >> 8) as u8, v1 as u8]) {
+            out.violate("C09", "valid_peer_refused", format!("{}: the first request was not served ({})", desc, hex(&first)));
+            return;
+        }
+        let panics: Vec<String> = kernel::with(|w| w.panics.clone());
+        let j = journal.lock().unwrap()[calls_before..].to_vec();
+        // a Modbus reply to the damaged request (tx 2) must not exist; a TLS alert is fine
+        let modbus_reply = second.len() >= 2 && second[0] == 0 && second[1] == 2;
+        if !panics.is_empty() || !j.is_empty() || modbus_reply || phase < 3 {
+            out.violate("C07", "tls_corrupted_record_processed", format!("{}: panics {:?}, handler calls {:?}, bytes back {} (closed={}, phase {})", desc, panics, j, hex(&second), closed, phase));
+            return;
+        }
+        // the server is still there for the next peer
+        let ok: Arc<Mutex<Vec<u8>>> = Arc::new(Mutex::new(Vec::new()));
+        {
+            let ok = ok.clone();
+            let pcfg = peer_client_config(2, "cli_operator_cert.pem", "cli_operator_key.pem");
+            simtokio::task::spawn_named("tls-peer-client", async move {
+                if let Ok(tcp) = TcpStream::connect(addr).await {
+                    let connector = tokio_rustls::TlsConnector::from(pcfg);
+                    if let Ok(mut stream) = connector.connect(ServerName::try_from("test.com").unwrap(), tcp).await {
+                        let mut buf = [0u8; 64];
+                        let _ = stream.write_all(&mbap_frame(3, 1, &[3, 0, 3, 0, 1])).await;
+                        if let Ok(Ok(n)) = simtokio::time::timeout(Duration::from_secs(2), stream.read(&mut buf)).await {
+                            ok.lock().unwrap().extend_from_slice(&buf[..n]);
+                        }
+                    }
+                }
+            });
+        }
+        kernel::run_until(|| false, kernel::now_ns() + 2_500 * MS, 400_000);
+        let v3 = mem.read_reg(3, 3).unwrap();
+        if *ok.lock().unwrap() != mbap_frame(3, 1, &[3, 2, (v3 >> 8) as u8, v3 as u8]) {
+            out.violate("C07", "server_dead_after_tls_corruption", format!("{}: a new connection afterwards received {}", desc, hex(&ok.lock().unwrap())));
+        }
+        {
+            let mut fut = Box::pin(handle.shutdown());
+            let _ = kernel::block_on(fut.as_mut());
+        }
+        kernel::settle();
+        let _ = task;
+    } else {
+        // ---- rodbus as TLS client
+        let tls = TlsClientConfig::full_pki(Some("test.com".to_string()), &fixture("ca1_cert.pem"), &fixture("cli_operator_cert.pem"), &fixture("cli_operator_key.pem"), None, MinTlsVersion::V1_2).expect("client config");
+        let addr: SocketAddr = "10.0.0.7:802".parse().unwrap();
+        let states: super::client::StateLog = Arc::new(Mutex::new(Vec::new()));
+        let comps: super::client::Completions = Arc::new(Mutex::new(Vec::new()));
+        let (channel, task) = create_tls_client_task_with_options(
+            HostAddr::ip(addr.ip(), addr.port()),
+            doubling_retry_strategy(Duration::from_millis(100), Duration::from_millis(100)),
+            tls,
+            Some(Box::new(super::client::Listen { log: states.clone(), delay_ns: 0 })),
+            ClientOptions::default().decode_level(decode),
+        );
+        let task = simtokio::task::spawn_named("tls-client", task.run());
+        let listener = TcpListener::bind_now(addr).unwrap();
+        let scfg = peer_server_config(peer_v, "srv_ok_cert.pem", "srv_ok_key.pem");
+        let served = Arc::new(Mutex::new(0u32));
+        {
+            let served = served.clone();
+            simtokio::task::spawn_named("tls-peer-server", async move {
+                loop {
+                    let (tcp, _) = match listener.accept().await {
+                        Ok(x) => x,
+                        Err(_) => return,
+                    };
+                    let acceptor = tokio_rustls::TlsAcceptor::from(scfg.clone());
+                    let served = served.clone();
+                    simtokio::task::spawn_named("tls-peer-conn", async move {
+                        let mut stream = match acceptor.accept(tcp).await {
+                            Ok(s) => s,
+                            Err(_) => return,
+                        };
+                        let mut buf = [0u8; 64];
+                        loop {
+                            match stream.read(&mut buf).await {
+                                Ok(n) if n >= 12 => {
+                                    let tx = ((buf[0] as u16) << 8) | buf[1] as u16;
+                                    *served.lock().unwrap() += 1;
+                                    if stream.write_all(&mbap_frame(tx, 1, &[3, 2, 0x12, 0x34])).await.is_err() {
+                                        return;
+                                    }
+                                }
+                                _ => return,
+                            }
+                        }
+                    });
+                }
+            });
+        }
+        kernel::settle();
+        let _ = kernel::block_on(channel.enable());
+        kernel::run_until(|| false, 500 * MS, 200_000);
+        let req = crate::model::pdu::Req::ReadHolding { start: 0, count: 1 };
+        super::client::submit(&channel, super::client::Style::Future, 0, &req, 1, 1000 * MS, &comps);
+        kernel::run_until(|| false, kernel::now_ns() + 200 * MS, 200_000);
+        // arm: one bit of the next record the peer sends (the second reply)
+        kernel::with(|w| {
+            if let Some(c) = w.net.conns.get_mut(0) {
+                let p = &mut c.pipes[1];
+                p.flip = Some((p.total_written + offset_in_record, mask));
+                w.count("fault_bitflip");
+            }
+        });
+        super::client::submit(&channel, super::client::Style::Future, 1, &req, 1, 1000 * MS, &comps);
+        kernel::run_until(|| false, kernel::now_ns() + 1_500 * MS, 400_000);
+        // after the reconnect the channel works again
+        super::client::submit(&channel, super::client::Style::Future, 2, &req, 1, 1000 * MS, &comps);
+        kernel::run_until(|| false, kernel::now_ns() + 1_500 * MS, 400_000);
+        let c = comps.lock().unwrap().clone();
+        let st = states.lock().unwrap().clone();
+        let panics: Vec<String> = kernel::with(|w| w.panics.clone());
+        let desc = format!("TLS client, peer versions {}, bit {:#04x} flipped at byte {} of the second reply's record", ["1.2", "1.3", "1.2+1.3"][peer_v as usize], mask, offset_in_record);
+        let good = crate::model::client::Outcome::Ok(crate::model::pdu::ReplyData::Regs(vec![(0, 0x1234)]));
+        let o = |id: usize| c.iter().find(|x| x.0 == id).map(|x| x.2.clone());
+        if !panics.is_empty() {
+            out.violate("C07", "tls_corrupted_record_processed", format!("{}: the client task panicked: {:?}", desc, panics));
+        } else if o(0) != Some(good.clone()) {
+            out.violate("C09", "valid_peer_refused", format!("{}: the first request completed with {:?}; listener {:?}", desc, o(0), st));
+        } else if matches!(o(1), Some(crate::model::client::Outcome::Ok(_)) | Some(crate::model::client::Outcome::Exception(_)) | None) {
+            out.violate("C07", "tls_corrupted_record_processed", format!("{}: the request whose reply record was damaged completed with {:?}", desc, o(1)));
+        } else if o(2) != Some(good) {
+            out.violate("C07", "client_dead_after_tls_corruption", format!("{}: after the damaged record the next request completed with {:?}; listener {:?}", desc, o(2), st));
+        }
+        let _ = kernel::block_on(channel.shutdown());
+        kernel::run_until(|| false, kernel::now_ns() + 100 * MS, 100_000);
+        let _ = task;
+        let _ = served;
+    }
+    out.probe(if cfg.variant == 0 { "tls_corruption_server_role" } else { "tls_corruption_client_role" });
+    out.ops_checked = 3;
+    out.nontrivial = Some((cfg.variant as u64) << 40 | (offset_in_record << 16) | (mask as u64) << 8 | (peer_v as u64) << 4 | (dec_idx as u64) << 24);
+    out.sample = Some(json!({"scenario": "bit flip inside an established TLS session", "role": if cfg.variant == 0 { "server" } else { "client" }, "offset_in_record": offset_in_record, "mask": mask}));
+}
